@@ -89,6 +89,17 @@ class VRefMap:
         return VRefMap(self.arr, self.valkind)
 
 
+class VOptRefMap:
+    """dict from opaque refs to Optional[ref] (a cache of possibly absent results): three arrays -- key present, stored
+    value is None, stored value"""
+
+    def __init__(self, present, isnone, val, cls=None):
+        self.present, self.isnone, self.val, self.cls = present, isnone, val, cls
+
+    def copy(self):
+        return VOptRefMap(self.present, self.isnone, self.val, self.cls)
+
+
 class VFunc:
     """Callable value: a repo function/closure (fdef + closure env), a parameter with a spec, ..."""
 
